@@ -9,13 +9,21 @@ Kernels
        (fully symbolic buffer, no well-formedness assumption)
   K1s  the struct stand-in used for image_utils agrees with the real struct module
   K2   relationship-target resolution (pptx._normalize_relative_path, xlsx._resolve_drawing_path /
-       _resolve_image_path, docx "word/" + target, epub resolve_href) vs OPC / RFC 3986 part-name
-       resolution (posixpath.normpath(join(dirname(source), target)), absolute = package root)
-  K3   numbering and unit views on symbolic content (see the kernel docstrings)
+       _resolve_image_path, docx "word/" + target through _extract_images_from_context, epub
+       resolve_href) on a Target whose every character is symbolic, vs OPC / RFC 3986 reference
+       resolution for the three shapes the property names (relative, parent-relative, absolute)
+  K2s  the CharStr-aware source variants used by K2 == the original functions
+  K3   structure exploration through the public readers: generated pptx/docx/xlsx/epub/odp packages
+       (units x images x present/missing x relationship order x failing media read): bit-exact bytes,
+       nothing extra, document order, numbers 1..n, content type, pixel size, unit attribution, unit
+       views == document iterators
+  K3v  unit views vs document iterators on content instances (pdf, pptx, xlsx, odp, ods)
 
 Oracles are written from the file-format specifications (PNG 1.2 section 11.2.2, GIF89a section 18,
-BMP BITMAPFILEHEADER + DIB header, ITU T.81 Annex B) and from ECMA-376 part 2 (OPC) section 8/9,
-not from the code.
+BMP BITMAPFILEHEADER + DIB header, ITU T.81 Annex B), from ECMA-376 part 2 (OPC) / RFC 3986 5.2 and
+from the property text, not from the code.  Every deviation of the library found so far is recorded
+in /verif/known_findings.json with a class predicate over the harness inputs; the info fields
+``variant``, ``shape``, ``explained``, ``restart``, ``single_gap`` exist for those predicates.
 """
 import io
 import struct as _real_struct
@@ -833,6 +841,49 @@ def write_odp(units, reverse_rels=False):
     mem.append(("META-INF/manifest.xml", '<?xml version="1.0" encoding="UTF-8"?><manifest:manifest xmlns:manifest="urn:oasis:names:tc:opendocument:xmlns:manifest:1.0">%s</manifest:manifest>' % "".join(man)))
     return _zip(mem)
 
+_S_NS = "http://schemas.openxmlformats.org/spreadsheetml/2006/main"
+_XDR = "http://schemas.openxmlformats.org/drawingml/2006/spreadsheetDrawing"
+
+def write_xlsx(units, reverse_rels=False, swap_files=False, anchors=("one",), ext_px=None):
+    """units: per sheet (tab order) list of images.  swap_files: the first tab lives in sheet2.xml and the
+    second in sheet1.xml (what Excel leaves behind after the tabs are reordered)."""
+    ns = len(units)
+    file_of = list(range(1, ns + 1))
+    if swap_files and ns == 2:
+        file_of = [2, 1]
+    mem = [("[Content_Types].xml", content_types(
+        [("/xl/workbook.xml", "application/vnd.openxmlformats-officedocument.spreadsheetml.sheet.main+xml")] +
+        [("/xl/worksheets/sheet%d.xml" % f, "application/vnd.openxmlformats-officedocument.spreadsheetml.worksheet+xml") for f in file_of] +
+        [("/xl/drawings/drawing%d.xml" % f, "application/vnd.openxmlformats-officedocument.drawing+xml") for f in file_of])),
+        ("_rels/.rels", rels_xml([("rId1", R + "/officeDocument", "xl/workbook.xml")]))]
+    mem.append(("xl/workbook.xml", '<?xml version="1.0" encoding="UTF-8"?><workbook xmlns="%s" xmlns:r="%s"><sheets>%s</sheets></workbook>' % (
+        _S_NS, R, "".join('<sheet name="Tab%d" sheetId="%d" r:id="rId%d"/>' % (i + 1, i + 1, i + 1) for i in range(ns)))))
+    mem.append(("xl/_rels/workbook.xml.rels", rels_xml([("rId%d" % (i + 1), R + "/worksheet", "worksheets/sheet%d.xml" % file_of[i]) for i in range(ns)])))
+    n = 0
+    for si, imgs in enumerate(units):
+        f = file_of[si]
+        mem.append(("xl/worksheets/sheet%d.xml" % f, '<?xml version="1.0" encoding="UTF-8"?><worksheet xmlns="%s" xmlns:r="%s"><sheetData><row r="1"><c r="A1" t="inlineStr"><is><t>tab %d</t></is></c></row></sheetData><drawing r:id="rId1"/></worksheet>' % (_S_NS, R, si + 1)))
+        mem.append(("xl/worksheets/_rels/sheet%d.xml.rels" % f, rels_xml([("rId1", R + "/drawing", "../drawings/drawing%d.xml" % f)])))
+        anchors_xml, rl = [], []
+        for k, im in enumerate(imgs):
+            n += 1
+            rid = "rId%d" % (k + 1)
+            rl.append((rid, R + "/image", "../media/image%d.%s" % (n, im["ext"])))
+            pic = ('<xdr:pic><xdr:nvPicPr><xdr:cNvPr id="%d" name="Picture %d"/><xdr:cNvPicPr/></xdr:nvPicPr><xdr:blipFill><a:blip r:embed="%s"/></xdr:blipFill><xdr:spPr/></xdr:pic><xdr:clientData/>' % (k + 2, k + 1, rid))
+            kind = anchors[k % len(anchors)]
+            frm = '<xdr:from><xdr:col>0</xdr:col><xdr:colOff>0</xdr:colOff><xdr:row>%d</xdr:row><xdr:rowOff>0</xdr:rowOff></xdr:from>' % (k * 3)
+            if kind == "one":
+                e = ext_px or im["size"]
+                anchors_xml.append('<xdr:oneCellAnchor>%s<xdr:ext cx="%d" cy="%d"/>%s</xdr:oneCellAnchor>' % (frm, e[0] * 9525, e[1] * 9525, pic))
+            else:
+                to = '<xdr:to><xdr:col>2</xdr:col><xdr:colOff>0</xdr:colOff><xdr:row>%d</xdr:row><xdr:rowOff>0</xdr:rowOff></xdr:to>' % (k * 3 + 2)
+                anchors_xml.append('<xdr:twoCellAnchor>%s%s%s</xdr:twoCellAnchor>' % (frm, to, pic))
+            if im["present"]:
+                mem.append(("xl/media/image%d.%s" % (n, im["ext"]), im["data"]))
+        mem.append(("xl/drawings/drawing%d.xml" % f, '<?xml version="1.0" encoding="UTF-8"?><xdr:wsDr xmlns:xdr="%s" xmlns:a="%s" xmlns:r="%s">%s</xdr:wsDr>' % (_XDR, A, R, "".join(anchors_xml))))
+        mem.append(("xl/drawings/_rels/drawing%d.xml.rels" % f, rels_xml(rl[::-1] if reverse_rels else rl)))
+    return _zip(mem)
+
 
 def _k3_model(ctx, n_units, max_per_unit):
     """symbolic structure -> units = [[image dict]]: count per unit, present/missing per image,
@@ -857,8 +908,10 @@ def _k3_formats():
     from sharepoint2text.parsing.extractors.epub_extractor import read_epub
     from sharepoint2text.parsing.extractors.open_office.odp_extractor import read_odp
     # name -> (writer, reader, units are pages/slides/sheets, max units)
+    from sharepoint2text.parsing.extractors.ms_modern.xlsx_extractor import read_xlsx
     return {"pptx": (write_pptx, read_pptx, True, 2), "docx": (write_docx, read_docx, False, 1),
-            "epub": (write_epub, read_epub, False, 2), "odp": (write_odp, read_odp, True, 2)}
+            "epub": (write_epub, read_epub, False, 2), "odp": (write_odp, read_odp, True, 2),
+            "xlsx": (write_xlsx, read_xlsx, True, 2)}
 
 
 def _read_fault(real, fail_at):
@@ -885,7 +938,15 @@ def k3_packages(ctx):
     fail_at = 0
     if ctx.params.get("faults") and flat:
         fail_at = ctx.choice("read_failure_at", len(flat) + 1)       # 0 = no failure
-    blob = writer(units, reverse)
+    opts = {}
+    if fmt == "xlsx" and not ctx.params.get("faults"):
+        # tabs reordered after creation (first tab stored in sheet2.xml), anchor kinds, displayed size
+        if n_units == 2:
+            opts["swap_files"] = ctx.flag("tab_order_differs_from_file_numbers")
+        opts["anchors"] = [("one",), ("two",), ("two", "one")][ctx.choice("anchor_kinds", 3)]
+        if ctx.flag("picture_resized_on_sheet"):
+            opts["ext_px"] = (100, 50)
+    blob = writer(units, reverse, **opts)
     from sharepoint2text.parsing.extractors.util import zip_context as zcm
     try:
         if fail_at:
@@ -900,6 +961,7 @@ def k3_packages(ctx):
     index_of = {im["data"]: k for k, im in enumerate(flat)}
     shape = {"units": [len(u) for u in units], "present": [[int(im["present"]) for im in u] for u in units],
              "reversed": reverse, "fail_at": fail_at}
+    shape.update({k: (",".join(v) if k == "anchors" else bool(v)) for k, v in opts.items()})
     numbers_all = [m["image_number"] for _, _, m in got]
     if fail_at:
         # records without bytes are error placeholders for the unreadable member: they may be returned
@@ -912,16 +974,37 @@ def k3_packages(ctx):
     want_numbers = list(range(1, len(got) + 1))
     if ctx.perturb == "numbers_from_zero":
         want_numbers = list(range(len(got)))
+    # signatures of the deviation classes recorded in known_findings.json (used by match.where only)
+    unit_of_idx = [ui for ui, u in enumerate(units) for im in u if im["present"]]
+    per_unit = [sum(1 for k in seq if 0 <= k < len(unit_of_idx) and unit_of_idx[k] == ui) for ui in range(n_units)]
+    restart = [j + 1 for c in per_unit for j in range(c)]
+    explained = ""
+    if reverse and len(seq) > 1 and seq == sorted(seq, reverse=True):
+        explained = "relationship-file-order"
+    if opts.get("anchors") == ("two", "one"):
+        grouped, base = [], 0
+        for u in units:
+            idx = [base + j for j, im in enumerate([im for im in u if im["present"]])]
+            pos = [j for j, im in enumerate(u) if im["present"]]
+            kinds = [("two", "one")[j % 2] for j in pos]
+            grouped += [i for i, kd in zip(idx, kinds) if kd == "one"] + [i for i, kd in zip(idx, kinds) if kd == "two"]
+            base += len(idx)
+        if seq == grouped:
+            explained = "anchor-kind-order"
     if fail_at:
         # with a failing media read the surviving images keep document order and gap-free numbers
         ctx.require(seq == sorted(seq) and len(set(seq)) == len(seq), "order-differs-from-document-order",
-                    got=seq, **shape)
+                    got=seq, explained=explained, **shape)
         want_all = list(range(1, len(numbers_all) + 1)) if ctx.perturb != "numbers_from_zero" else []
-        ctx.require(numbers_all == want_all, "numbers-not-1..n-after-read-failure", numbers=numbers_all, **shape)
+        single_gap = (len(numbers_all) > 0 and numbers_all == sorted(set(numbers_all)) and numbers_all[0] >= 1
+                      and numbers_all[-1] == len(numbers_all) + 1)
+        ctx.require(numbers_all == want_all, "numbers-not-1..n-after-read-failure", numbers=numbers_all,
+                    restart=(n_units > 1 and numbers_all == restart), single_gap=single_gap, **shape)
         ctx.require(len(got) >= len(flat) - 1, "image-lost-or-duplicated", got=seq, **shape)
         return
     ctx.require(sorted(seq) == list(range(len(flat))), "image-lost-or-duplicated", got=seq, **shape)
-    ctx.require(seq == list(range(len(flat))), "order-differs-from-document-order", got=seq, **shape)
+    ctx.require(seq == list(range(len(flat))), "order-differs-from-document-order", got=seq, explained=explained,
+                **shape)
     for k, (b, ctype, meta) in enumerate(got):
         ctx.require(ctype == flat[k]["ctype"] and meta["content_type"] == flat[k]["ctype"], "content-type-differs",
                     expected=flat[k]["ctype"], got=ctype, **shape)
@@ -950,7 +1033,8 @@ def k3_packages(ctx):
             ctx.require(meta["unit_number"] in (None, unit_of[b]), "image-on-wrong-unit",
                         unit_number=meta["unit_number"], expected=unit_of[b], **shape)
     # last, so that a known deviation here does not hide the checks above
-    ctx.require(numbers == want_numbers, "numbers-not-1..n", numbers=numbers, **shape)
+    ctx.require(numbers == want_numbers, "numbers-not-1..n", numbers=numbers,
+                restart=(n_units > 1 and numbers == restart), **shape)
     for k, (b, ctype, meta) in enumerate(got):
         im = flat[k]
         want = im["size"] if ctx.perturb != "size_swapped" else im["size"][::-1]
@@ -960,8 +1044,8 @@ def k3_packages(ctx):
 
 def _k3_parts(tier):
     per = 2 if tier == "quick" else 3
-    parts = [{"format": f, "per_unit": per} for f in ("pptx", "docx", "epub", "odp")]
-    parts += [{"format": f, "per_unit": per, "faults": True} for f in ("pptx", "epub", "odp")]
+    parts = [{"format": f, "per_unit": per} for f in ("pptx", "docx", "epub", "odp", "xlsx")]
+    parts += [{"format": f, "per_unit": per, "faults": True} for f in ("pptx", "epub", "odp", "xlsx")]
     return parts
 
 
@@ -1078,7 +1162,7 @@ KERNELS = [
     Kernel("K2s", "CharStr variants of the resolution functions == the original functions on concrete strings",
            k2_variant_check, targets=lambda: _k2_targets_fns()[:3], core=False, strength="structure",
            perturb=["variant_differs"], choices=["target from a vocabulary", "function"]),
-    Kernel("K3", "generated pptx/docx/epub/odp packages through the public readers: bytes bit-exact, nothing extra, "
+    Kernel("K3", "generated pptx/docx/xlsx/epub/odp packages through the public readers: bytes bit-exact, nothing extra, "
                  "document order, numbers 1..n (also when a media read fails), content type, pixel size, unit "
                  "attribution, unit views == document iterators",
            k3_packages, targets=lambda: [r for _, r, _, _ in _k3_formats().values()], parts=_k3_parts,
@@ -1086,12 +1170,14 @@ KERNELS = [
            perturb=[("numbers_from_zero", {"format": "odp", "per_unit": 2}),
                     ("size_swapped", {"format": "docx", "per_unit": 2})],
            choices=["number of units (1..2)", "images per unit (0..2, thorough 0..3)", "media member present/missing",
-                    "relationship / manifest order reversed", "index of the failing media read"],
+                    "relationship / manifest order reversed", "index of the failing media read",
+                    "xlsx: tab order differs from sheetN.xml numbering, anchor kinds (oneCell/twoCell/mixed), picture "
+                    "resized on the sheet"],
            stubs=["ZipContext.read_bytes -> raises OSError at the chosen image read (fault parts only)"],
            assumptions=["images are PNG/JPEG/GIF/BMP written by the harness with distinct pixel sizes; every anchor "
                         "references its own media member (shared media are not generated: the property text leaves "
                         "open whether they are returned once or per anchor)"],
-           outside=["xlsx, odt, ods, odg, pdf, rtf packages (no writer in the harness); external links",
+           outside=["odt, ods, odg, pdf, rtf packages (no writer in the harness); external links",
                     "bit-exactness of zipfile itself"],
            timeout={"quick": 100, "thorough": 1100}),
     Kernel("K3v", "unit views vs document iterators on content instances (pdf, pptx, xlsx, odp, ods): inclusion and, "
@@ -1106,9 +1192,16 @@ META = {
     "level_text": "The real dimension sniffers (three copies of _get_image_pixel_dimensions, image_utils "
                   "detect_image_type/get_image_dimensions/get_jpeg_dimensions) are executed on file beginnings whose "
                   "every byte is symbolic; z3 decides on each path that the returned size equals what the PNG/GIF/BMP/"
-                  "JPEG specification says the file declares, and that the three copies agree on every input.",
-    "level_note": "Trusted: the reading of the format specifications in spec_declared; struct stand-in (checked by K1s). "
-                  "Outside: size fields beyond the buffer bound, JPEGs with more segments before SOFn than the bound.",
-    "technique": "symbolic execution of the real sniffers on z3 bit-vector bytes (symrun), per-path SMT query against "
-                 "format-specification oracles, relational query between the three copies",
+                  "JPEG specification says the file declares, and that the three copies agree on every input. The "
+                  "relationship-target resolvers of pptx/docx/xlsx/epub are executed on a Target whose every character "
+                  "is symbolic and compared with OPC/RFC 3986 resolution for relative, parent-relative and absolute "
+                  "targets. Numbering, order, unit attribution and the unit/document views are explored on generated "
+                  "packages through the public readers (structure choices, failing media read).",
+    "level_note": "Trusted: the reading of the format specifications in spec_declared and of OPC in _ref_resolve; the "
+                  "struct stand-in (K1s) and the f-string/join rewriting for symbolic strings (K2s, and replay on the "
+                  "original functions). Outside: size fields beyond the buffer bound, JPEGs with more segments before "
+                  "SOFn than the bound, targets with dot segments or percent-encoding, odt/ods/odg/pdf/rtf packages.",
+    "technique": "symbolic execution of the real sniffers on z3 bit-vector bytes and of the real resolvers on bounded "
+                 "symbolic strings (symrun), per-path SMT query against specification oracles, relational query "
+                 "between the three sniffer copies, bounded-exhaustive structure exploration through the public API",
 }
